@@ -432,7 +432,13 @@ pub fn api_case(data: &[u8]) -> api::ApiCase {
                 calls.push(match r.u8() % 8 {
                     0 | 1 | 2 => api::RibbonCall::Poll(v),
                     3 | 4 => api::RibbonCall::PollN(v, r.u16() % 4000),
-                    5 => api::RibbonCall::Value,
+                    5 => {
+                        if r.bool() {
+                            api::RibbonCall::Value
+                        } else {
+                            api::RibbonCall::PollNearBoundary((r.u8() % 48) as i8 - 40, r.u16() % 4000)
+                        }
+                    }
                     6 => api::RibbonCall::JustPressed,
                     _ => api::RibbonCall::JustReleased,
                 });
